@@ -191,6 +191,7 @@ TObs == /\ IsEv("obs")
    allocation table as it is now (node-table notices change it), the trains that are on the track now *)
 TLists == /\ IsEv("lists")
           /\ ListsOkT(cfg, ts.conn, {t \in DOMAIN ts.trn : ts.trn[t].on = 1}, Ev.lists)
+          /\ LookupsOk(cfg, ts.conn, ts.addr, Ev.lists)
           /\ UNCHANGED <<nodes, now, seqOn, ghost, cap, cfg, ts, uq, held, bootout, bootms, bootinfo>>
 
 (* drain: everything the three read functions return until NULL *)
